@@ -602,6 +602,9 @@ PANIC_CALLEES = (
 )
 
 
+ALLOC_SIZED = ("with_capacity", "reserve", "reserve_exact", "try_reserve", "resize", "with_capacity_in", "set_len")
+
+
 def is_4xx(st):
     return st is not None and all((isinstance(x, int) and 400 <= x < 500) or (isinstance(x, str) and "4xx" in x) for x in st) and len(st) > 0
 
@@ -893,6 +896,26 @@ def c15_nopanic(rep, W, rule="C15.NOPANIC"):
         # the only arithmetic assert allowed: len(body) + len(chunk), two lengths each <= isize::MAX
         okas = all(msg == "Overflow:Add" for msg, _ in asserts) and len(asserts) <= 1
         rep.ob(rule, (S.short_fn(b), "no-panic-calls"), not bad, "panicking calls in request parsing: %s" % (bad or "none"), where(b))
+        # allocation sized by a run-time value: `with_capacity(n)` / `reserve(n)` / `resize(n, ..)` / `vec![x; n]` panic
+        # ("capacity overflow") or abort the process when n is huge; in request handling n can only come from the request
+        pvb = W.prov(b)
+        sized = []
+        for bb, t in b.calls():
+            d = t["callee"].get("def", "")
+            nm = d.split("::")[-1]
+            if nm in ALLOC_SIZED or d in ("alloc::vec::from_elem",):
+                args = pvb.arg_terms(bb)
+                szs = [a for a in args if not (a[0] == "const" and isinstance(a[2], int) and a[2] <= 128 * 1024 * 1024)]
+                # the receiver (a collection) is not a size; a call whose every other argument is a small constant is fine
+                nonconst = [a for a in (args[1:] if nm not in ("with_capacity", "from_elem") else args) if not (a[0] == "const" and isinstance(a[2], int) and a[2] <= 128 * 1024 * 1024)]
+                if nm == "resize" and len(args) >= 2:
+                    nonconst = [a for a in args[1:2] if not (a[0] == "const" and isinstance(a[2], int) and a[2] <= 128 * 1024 * 1024)]
+                if nm == "from_elem" and len(args) >= 2:
+                    nonconst = [a for a in args[1:2] if not (a[0] == "const" and isinstance(a[2], int) and a[2] <= 128 * 1024 * 1024)]
+                if nonconst:
+                    sized.append((nm, b.line_of_block(bb), P.show(nonconst[0])[:80]))
+        rep.ob(rule, (S.short_fn(b), "no-request-sized-allocation"), not sized,
+               "allocations sized by a run-time value in request handling (a client-chosen number can make them panic or abort the process before any limit is checked): %s" % (sized or "none"), where(b))
         rep.ob(rule, (S.short_fn(b), "no-runtime-asserts"), okas,
                "run-time assertion sites: %s (allowed: the one `body.len() + chunk.len()` overflow check, unreachable because both are lengths <= isize::MAX)" % (asserts or "none"), where(b))
 
